@@ -321,7 +321,7 @@ def run_driver(name, cases, bindir, timeout=600, wall_limit=25):
         with open(sp, "w") as f:
             json.dump({"events_dir": os.path.join(d, "events"), "cases": left, "case_wall_limit_s": wall_limit}, f)
         env = dict(os.environ, VERIF_CMD="telemetry", VERIF_SCRIPT=sp, VERIF_OUT=out, RUST_BACKTRACE="0")
-        cmd = ["unshare", "-n", "sh", "-c", rig.NS_SETUP + " && exec " + exe]
+        cmd = rig.NS + ["sh", "-c", rig.NS_SETUP_PRIVATE + " && exec " + exe]
         try:
             with open(os.path.join(d, "stdout.txt"), "w") as so:
                 p = subprocess.run(cmd, env=env, cwd=d, stdout=so, stderr=subprocess.PIPE, timeout=timeout, text=True,
